@@ -635,7 +635,34 @@ pub fn run(ctx: &Ctx) -> Outcome {
             (n, runs.len() as u64, true, first.map(|f| f.0))
         },
     );
-    let evaluations: u64 = results.iter().map(|r| r.0).sum();
+    // bursts: many complete unknown-kind messages collected in one read (what the kernel gathers
+    // while the task is busy), followed by a known message; whole, and cut behind the burst
+    let mut burst_evals = 0u64;
+    {
+        let unk = alpha.iter().position(|a| a.0 == "Unknown9+0").unwrap();
+        let unk2 = alpha.iter().position(|a| a.0 == "Unknown20+2").unwrap();
+        let have = alpha.iter().position(|a| a.0 == "Have").unwrap();
+        let ka = alpha.iter().position(|a| a.0 == "KeepAlive").unwrap();
+        for n in [1usize, 8, 63, 64, 65, 70, 200, 1000] {
+            for (filler, tail) in [(unk, have), (unk2, ka), (unk, ka)] {
+                let mut msgs = vec![filler; n];
+                msgs.push(tail);
+                let mut stream = vec![];
+                for m in &msgs {
+                    stream.extend_from_slice(&alpha[*m].1);
+                }
+                let burst_end = stream.len() - alpha[tail].1.len();
+                for (cuts, eof_at) in [(vec![], None), (vec![], Some(stream.len())), (vec![burst_end], None), (vec![burst_end], Some(stream.len())), (vec![5.min(burst_end)], None)] {
+                    let r = Run { msgs: msgs.clone(), cuts, eof_at };
+                    burst_evals += 1;
+                    if let Some((class, why)) = execute(&stream, &r) {
+                        ctx.violation(class, format!("stream [{} x {}, {}] cuts {:?} eof_at {:?}: {}", n, alpha[filler].0, alpha[tail].0, r.cuts, r.eof_at, why), json!({"msgs": r.msgs, "names": [format!("{} x {}", n, alpha[filler].0), alpha[tail].0.to_string()], "cuts": r.cuts, "eof_at": r.eof_at}));
+                    }
+                }
+            }
+        }
+    }
+    let evaluations: u64 = results.iter().map(|r| r.0).sum::<u64>() + burst_evals;
     let complete = results.iter().all(|r| r.2);
     let failing_streams = results.iter().filter(|r| r.3.is_some()).count();
 
@@ -652,7 +679,7 @@ pub fn run(ctx: &Ctx) -> Outcome {
     o.set("traces_validated_against_impl", json!(evaluations));
     o.set("evaluations", json!(evaluations));
     o.set("distinct_nontrivial", json!(seqs.len()));
-    o.set("rule", json!(format!("states = distinct message streams (all sequences of <= {} messages over the {}-symbol alphabet {:?}, nothing after the second undecodable message); transitions = executions = (stream, segmentation, ending) triples: all 2^(n-1) segmentations for streams of <= 16 bytes, otherwise all subsets of <= {} cuts from the cut-point set (first 6 bytes of each message, message boundaries +-1, mid-payload); each once left open and once closed at the end; plus truncations (closed at {} with 0..1 earlier cuts). Every execution drives the real Connection::recv_frame, so each is an implementation trace.", k, alpha.len(), alpha.iter().map(|a| a.0).collect::<Vec<_>>(), max_cuts, if thorough { "every byte offset of streams <= 200 bytes, every cut point otherwise" } else { "every cut point" })));
+    o.set("rule", json!(format!("states = distinct message streams (all sequences of <= {} messages over the {}-symbol alphabet {:?}, nothing after the second undecodable message); transitions = executions = (stream, segmentation, ending) triples: all 2^(n-1) segmentations for streams of <= 16 bytes, otherwise all subsets of <= {} cuts from the cut-point set (first 6 bytes of each message, message boundaries +-1, mid-payload); each once left open and once closed at the end; plus truncations (closed at {} with 0..1 earlier cuts). Plus bursts: 1, 8, 63, 64, 65, 70, 200 and 1000 complete unknown-kind messages followed by a known one, in one read, cut behind the burst, cut after 5 bytes, open and closed at the end. Every execution drives the real Connection::recv_frame, so each is an implementation trace.", k, alpha.len(), alpha.iter().map(|a| a.0).collect::<Vec<_>>(), max_cuts, if thorough { "every byte offset of streams <= 200 bytes, every cut point otherwise" } else { "every cut point" })));
     o.set("streams_with_a_violation", json!(failing_streams));
     o.set("exhaustive", json!(complete));
     let picks = ctx.seeded_pick(seqs.len(), 4);
